@@ -10,7 +10,7 @@ from . import exprharness as X
 from .chrun import Cond, run_conditions, to_obligations, concrete_reach
 
 HEAD = '''# generated harness module (E1, prophyc units) -- no message-formatting stub: str(int) is semantic in the parser
-from vf import pyharness as H, exprharness as X, compharness as K, acceptharness as A
+from vf import pyharness as H, exprharness as X, compharness as K, acceptharness as A, robustharness as RB
 H.setup(formatting_stub=True, int_str=True)
 X.parser()
 A.env()
@@ -22,16 +22,58 @@ def explain(fn, args, kwargs):
     if fam == 'tot':
         return X.explain(fn, lambda: globals()[fn](*args), TABLE)
     exc = None
+    what = None
     try:
         globals()[fn](*args)
     except Exception as e:   # noqa
         exc = type(e).__name__
-    return dict(check=fam, kind=('exception:' + exc) if exc else 'assertion')
+        if exc == 'Internal':
+            what = str(e)
+    d = dict(check=fam, kind=('exception:' + exc) if exc else 'assertion')
+    if what:
+        d['what'] = what
+    return d
 
 '''
 
 TOTAL_EXPRS = ['A + B', 'A - B', 'A * 3', 'A / B', 'A / 2', 'A << B', 'A >> B', 'A << 3', 'A >> 2', '-A', 'A / (B - B)', '1 << B', '8 >> B',
                '(A + B) / C', 'A + 1 << 2', 'A / 0', '-A / 3', 'A * 2 / B']
+
+
+def regex_obligations():
+    """E3: no token regex of the real lexers has an ambiguous alternation under an unbounded repetition (vf/regexharness.py)"""
+    from . import regexharness as R
+    from .common import Obligation, DISCHARGED, VIOLATED, INCONCLUSIVE, ERROR
+    obs = []
+    pat = os.environ.get('VF_ONLY')
+    n = 800
+    for name, rx in R.token_regexes():
+        for k, r in enumerate(R.analyse(rx)):
+            oid = 'lexer-regex/%s/%d' % (name, k)
+            if pat and pat not in oid:
+                continue
+            o = Obligation(oid, 'E3-z3', dict(check='token regex has no ambiguous starred alternation', token=name, regex=rx,
+                                              symbolic='the character (0..127) two alternatives could both accept'))
+            o.paths = r['queries']
+            o.solver_s = r['solver_s']
+            o.nontrivial = 'pairwise disjoint' in r['detail']
+            if r['verdict'] == 'discharged':
+                o.verdict = DISCHARGED
+            elif r['verdict'] == 'inconclusive':
+                o.verdict, o.detail = INCONCLUSIVE, r['detail']
+            else:
+                slow, txt = R.replay(rx, r['prefix'], r['witness'])
+                if slow:
+                    n += 1
+                    o.verdict, o.replayed = VIOLATED, True
+                    o.detail = '%s | %s' % (r['detail'], txt)
+                    o.signature = dict(check='lexer-regex', token=name, kind='exponential-backtracking')
+                    o.witness = dict(token=name, prefix=r['prefix'], char=r['witness'])
+                    o.replay_path = C.write_replay('C13', n, dict(property='C13', engine='E3-z3', kind='regex', token=name, regex=rx, prefix=r['prefix'], witness=r['witness'], detail=o.detail))
+                else:
+                    o.verdict, o.detail = INCONCLUSIVE, 'ambiguous, but the probe input did not make the real matcher slow: %s | %s' % (r['detail'], txt)
+            obs.append(o)
+    return obs
 
 
 def run(tier):
@@ -52,6 +94,44 @@ def run(tier):
         conds.append(Cond(path, 'sort__%d' % n, 'sort-terminates/n%d' % n,
                           dict(check='topological_sort terminates', nodes=n, symbolic='all %d dependency bits incl. self loops and cycles' % (n * n),
                                fuel='4*n*n+8 dependency queries'), sample_args=[False] * (n * n)))
+    # 1b. the whole model evaluation (sort, cross reference, stiffness, sizes) terminates on type definitions that name
+    #     each other in any way, themselves included: result or ModelError, within the fuel of typedef-chain steps
+    import itertools
+    from . import compharness as K
+    if tier == 'quick':
+        mt = [('typedef',), ('typedef', 'typedef'), ('typedef', 'struct'), ('struct', 'union'), ('typedef', 'typedef', 'struct'), ('union', 'typedef', 'typedef')]
+    else:
+        mt = [t for r in (1, 2, 3) for t in itertools.product(K.MT_KINDS, repeat=r)]
+    for kinds in mt:
+        n = len(kinds)
+        fn = 'mt__' + '_'.join(k[0] for k in kinds)
+        rs = ['r%d' % i for i in range(n)]
+        body.append('def %s(%s) -> bool:\n    """\n    pre: %s\n    post: _\n    """\n    return K.model_terminates(%r, [%s])\n\n'
+                    % (fn, ', '.join('%s: int' % r for r in rs), ' and '.join('0 <= %s <= %d' % (r, n) for r in rs), kinds, ', '.join(rs)))
+        conds.append(Cond(path, fn, 'model-terminates/' + '-'.join(kinds),
+                          dict(check='evaluate_model terminates', kinds=list(kinds), symbolic='which definition (or the builtin u8) each of the %d definitions names; self reference and cycles included' % n,
+                               fuel='50*(n+2) typedef-chain steps'), sample_args=[n] * n))
+    # 1c. an accepted output directory never trips the generators' assertion
+    body.append('def outdir__0(exists: bool, isdir: bool) -> bool:\n    """\n    post: _\n    """\n    return K.outdir_contract(exists, isdir)\n\n')
+    conds.append(Cond(path, 'outdir__0', 'output-directory-contract',
+                      dict(check='options.readable_dir accepts only what generators.base._make_path accepts', symbolic='what the file system answers for the path (exists, is a directory)'),
+                      sample_args=[True, True]))
+    # 1d. malformed isar elements (every subset of the attributes present) and bad patch lines end in the designed channel
+    from . import robustharness as RB
+    for k, el in enumerate(RB.ELEMENTS):
+        ps = ['p%d' % i for i in range(8)]
+        body.append('def isar__%d(%s) -> bool:\n    """\n    post: _\n    """\n    return RB.isar_element_total(%d, %s)\n\n' % (k, ', '.join('%s: bool' % p for p in ps), k, ', '.join(ps)))
+        conds.append(Cond(path, 'isar__%d' % k, 'isar-element-total/' + el,
+                          dict(check='isar element builders are total', element=el, symbolic='presence of every attribute of the element, its member and its dimension (8 bits)'),
+                          sample_args=[True] * 8))
+    body.append('def patchline__0(nwords: int, action_sel: int, params_sel: int, target_sel: int) -> bool:\n    """\n'
+                '    pre: 0 <= nwords <= 2 and 0 <= action_sel < %d and 0 <= params_sel < %d and 0 <= target_sel <= 2\n    post: _\n    """\n'
+                '    return RB.patch_line_total(nwords, action_sel, params_sel, target_sel)\n\n' % (len(RB.ACTIONS), len(RB.PARAMS)))
+    conds.append(Cond(path, 'patchline__0', 'patch-line-total',
+                      dict(check='patch lines are total', symbolic='number of words on the line, action keyword, parameter list, target definition'), sample_args=[2, 0, 2, 0]))
+    body.append('def xmltext__0(sel: int) -> bool:\n    """\n    pre: 0 <= sel < %d\n    post: _\n    """\n    return RB.xml_text_total(sel)\n\n' % len(RB.XML_TEXTS))
+    conds.append(Cond(path, 'xmltext__0', 'malformed-xml-text', dict(check='malformed XML text ends in the designed channel', symbolic='selector over %d concrete documents (expat is C code)' % len(RB.XML_TEXTS)),
+                      sample_args=[len(RB.XML_TEXTS) - 1]))
     # 2. expression actions total
     for idx, (e, pos) in enumerate(tab):
         # array-size / enumerator / discriminator positions hash or format the value (CrossHair realises it): small range there
@@ -87,8 +167,10 @@ def run(tier):
     raw = run_conditions(conds, 240 if tier == 'quick' else 1200)
     obs, _ = to_obligations('C13', conds, raw)
     concrete_reach(conds, obs)
+    obs += regex_obligations()
     return C.finish('C13', tier, obs, t0,
-                    functions=['prophyc.model.topological_sort', 'prophyc.parsers.prophy.Parser.p_expression_* / p_constant_def / p_enum_member / p_positive_expression / p_union_member',
+                    functions=['prophyc.model.topological_sort', 'prophyc.model.evaluate_model (typedef chains, self references)', 'lexer token regexes of prophy.Parser and calc.Calc (E3)',
+                               'prophyc.options.readable_dir vs prophyc.generators.base._make_path', 'prophyc.parsers.prophy.Parser.p_expression_* / p_constant_def / p_enum_member / p_positive_expression / p_union_member',
                                'prophyc.calc.Calc actions / p_error', 'prophyc.file_processor.FileProcessor (process_main, process_leaf, _process_file, push_dir, swap_dir)',
                                'prophyc.parsers.prophy.Parser.p_include_def'],
                     bounds=dict(sort='every dependency relation on <= %d nodes' % (3 if tier == 'quick' else 4), expressions='%d expression shapes x positions' % len(tab),
